@@ -17,6 +17,15 @@ def inner_view():
     return Abs('inner-view', handler)
 
 
+def view_method(P, selfty, mname):
+    """the method an impl provides, or -- when the impl does not override it -- the trait's provided body, which is what callers get"""
+    try:
+        return P.find_method(selfty, mname, 'ValueView', 'core')
+    except Unsupported as e:
+        if ': 0 candidates' not in str(e): raise
+        return P.find(r'^fn (?:\w+::)*ValueView::' + mname + r'\(', 'core')
+
+
 def state_arg():
     return Adt('State', 'Truthy', [])
 
@@ -28,7 +37,7 @@ def ob_forwarding(chk, P):
         ex = Executor(P, models_with([])); ex.seed = chk.seed
         for wrapper, selfty in (('&T', '&V'), ('Some', 'Option'), ('None', 'Option'), ('Borrowed', 'ValueCow'), ('Owned', 'ValueCow')):
             for mname in METHODS:
-                fn = P.find_method(selfty, mname, 'ValueView', 'core')
+                fn = view_method(P, selfty, mname)
                 st = State()
                 inner = inner_view()
                 extra = [state_arg()] if mname == 'query_state' else []
@@ -116,7 +125,87 @@ def ob_narrowing(chk, P):
         ob.absorb(ex)
 
 
+STATES = ['Truthy', 'DefaultValue', 'Empty', 'Blank']
+
+
+def ob_owned_agreement(chk, P):
+    with chk.obligation('views/agree-with-owned-value', 'every concrete view of a datum (Rust integers, floats, booleans, the five string types, ScalarCow, Vec, Object/HashMap/BTreeMap, State) answers '
+                        'query_state (truthy / default / empty / blank), type_name and is_nil exactly as the owned Value holding the same datum does, and its source()/render() are the same kind of printer',
+                        {'scalars': 'every i64 / f64 / bool', 'strings': '0..2 characters, each any Unicode scalar value, as &str, String, KString, KStringCow, KStringRef', 'containers': '0..1 elements / entries'}) as ob:
+        from checks.C13 import sym_string, str_value
+        from mirsym.models.maps import MapV
+        ex = Executor(P, models_with([])); ex.seed = chk.seed
+        def cases():
+            x = z3.BitVec('vx', 64); yield 'i64', 'i64', (lambda st: Int(x, 'i64')), (lambda st, v: value_scalar(scalar_int(Int(x, 'i64'))))
+            f = z3.FP('vf', z3.Float64()); yield 'f64', 'f64', (lambda st: Float(f)), (lambda st, v: value_scalar(scalar_float(Float(f))))
+            b = z3.Bool('vb'); yield 'bool', 'bool', (lambda st: Bool(b)), (lambda st, v: value_scalar(scalar_bool(Bool(b))))
+            for ty in ('&str', 'String', 'KString', 'KStringCow', 'KStringRef'):
+                for n in range(3):
+                    yield f'{ty}/{n}', ty, (lambda st, n=n, ty=ty: StrV(sym_string(st, n), 'str' if ty == '&str' else ty)), (lambda st, v: str_value(list(v.chars)))
+            el = value_scalar(scalar_int(Int(z3.BitVec('el', 64), 'i64')))
+            for n in range(2):
+                yield f'Vec/{n}', 'Vec', (lambda st, n=n: VecV([el] * n, 'Vec')), (lambda st, v: Adt('Value', 'Array', [VecV(list(v.items), 'Vec')]))
+                for kind, ty in (('HashMap', 'HashMap'), ('BTreeMap', 'BTreeMap')):
+                    yield f'{ty}/{n}', ty, (lambda st, n=n, kind=kind: MapV(('k',) * n, (el,) * n, kind)), (lambda st, v: Adt('Value', 'Object', [MapV(v.keys, v.items, 'Object')]))
+            for sv in STATES:
+                yield f'State::{sv}', 'State', (lambda st, sv=sv: Adt('State', sv, [])), (lambda st, v: Adt('Value', 'State', [v]))
+        for name, selfty, mk_view, mk_owned in cases():
+            for mname, extra_of in [('query_state', s_) for s_ in STATES] + [('type_name', None), ('is_nil', None), ('source', None), ('render', None)]:
+                st = State()
+                view = mk_view(st)
+                owned = mk_owned(st, view)
+                extra = [Adt('State', extra_of, [])] if extra_of else []
+                try:
+                    f1 = view_method(P, selfty, mname); f2 = view_method(P, 'Value', mname)
+                except Unsupported as e:
+                    if 'candidates' in str(e) and selfty in ('&str',):      # `impl ValueView for &str` is printed with a lifetime: look it up by its header text
+                        raise
+                    raise
+                recv = st.ref(st.ref(view)) if selfty == '&str' else st.ref(view)
+                o1 = list(ex.run(f1, [recv] + extra, st.clone()))
+                for s1, k1, v1 in o1:
+                    ob.paths += 1; ob.reached()
+                    if k1 != 'ret':
+                        ob.violation(f'views/{selfty}/{mname}/panic', f'<{selfty} as ValueView>::{mname} ends with {k1} {v1}', {'view': name}, {'kind': 'views'}, lambda r: r.get('outcome') == 'violation'); continue
+                    for s2, k2, v2 in ex.run(f2, [s1.ref(owned)] + extra, s1.clone()):
+                        ob.paths += 1
+                        a, b = answer(s1, v1), answer(s2, v2)
+                        if isinstance(a, z3.ExprRef) or isinstance(b, z3.ExprRef):
+                            ea = a if isinstance(a, z3.ExprRef) else z3.BoolVal(a); eb = b if isinstance(b, z3.ExprRef) else z3.BoolVal(b)
+                            m = ob.decide(ex, s2.conds, ea != eb)
+                            bad = m is not None
+                        else:
+                            ob.decide(ex, s2.conds, z3.BoolVal(a != b)); bad = a != b; m = None
+                        if bad:
+                            what = f'<{selfty} as ValueView>::{mname}' + (f'({extra_of})' if extra_of else '') + f' on {name}: the view answers {a}, the owned value answers {b}'
+                            ob.violation(f'views/{selfty}/{mname}' + (f'/{extra_of}' if extra_of else ''), what, {'view': name, 'method': mname, 'state': extra_of}, {'kind': 'views'}, lambda r: r.get('outcome') == 'violation')
+            ob.sample({'view': name})
+        ob.absorb(ex)
+
+
+def answer(st, v):
+    """comparable summary of a method result: bool expression / string / printer kind"""
+    v2 = st.deref_all(v) if isinstance(v, Ref) else v
+    if isinstance(v2, Bool):
+        c = v2.concrete()
+        return c if c is not None else v2.e
+    if isinstance(v2, StrV): return v2.concrete()
+    if isinstance(v2, Adt) and v2.ty == 'DisplayCow':
+        inner = st.deref_all(v2.items[0]) if v2.items else None
+        while isinstance(inner, Adt) and inner.ty in ('Box',): inner = st.deref_all(inner.items[0])
+        return ('printer', printer_kind(inner))
+    return repr(v2)
+
+
+def printer_kind(inner):
+    """ObjectSource/ObjectRender, ArraySource/ArrayRender, or 'scalar' for everything that prints a scalar"""
+    if isinstance(inner, Adt) and inner.ty in ('ObjectSource', 'ObjectRender', 'ArraySource', 'ArrayRender'): return inner.ty
+    if isinstance(inner, Adt) and inner.ty in ('StrDisplay', 'StrSource', 'ScalarDisplay', 'ScalarSource'): return inner.ty
+    return type(inner).__name__ + ':' + (inner.ty if isinstance(inner, Adt) else '')
+
+
 def run(chk):
     P = chk.program(('core',))
     ob_forwarding(chk, P)
+    ob_owned_agreement(chk, P)
     ob_narrowing(chk, P)
